@@ -29,6 +29,7 @@ CLAIM = (
     "constraint, not the absence of one); zero instances on the unchanged tree, kept alive by a positive control."
     " ARITY: the matchers of the schema inference read `node.values[i]` / `node.args[i]` only after establishing the exact number of "
     "operands (an ignored extra operand makes the inferred constraint stronger than the invariant)."
+    " BOUND / DIR / INTER (shared with C15) decide the inference the keywords are fed from; ANCHOR-ATOMS (shared with C06) the anchoring that makes the searching `pattern` keyword enforce the full match."
 )
 NOTE = (
     "Oracle: base64 text length 4*ceil(n/3). Documented exclusions (by design of the generator, stated in the property): tightenings "
